@@ -286,6 +286,8 @@ def validate_traces(module: str, events: list, prop: str, shards: int = 16, per_
         for t in printed_tuples(r["out"]):
             if t[0] == "VERDICT":
                 _, tid, verdict, *clause = t
+                if len(clause) == 2 and clause[1] == []:
+                    clause = clause[:1]
                 if verdict.startswith("known:"):
                     res["known"].setdefault(verdict[6:], []).append(tid)
                 elif verdict == "violation":
